@@ -513,3 +513,261 @@ def mon_c08(case):
                               f"got recent {nr} frequent {nf} ghost {ng} result {out}")
         r, f, g = nr, nf, ng
     return None
+
+
+def _arc_replace(size, p, t1, b1, t2, b2, b2hit):
+    prefer = len(t1) > 0 and (len(t1) > p or (len(t1) == p and b2hit))
+    vi = _victim(prefer, t1, t2)
+    if vi is None:
+        return t1, b1, t2, b2, None
+    src, ve = vi
+    if src == "r":
+        return t1[:-1], _push(size, b1, ve)[0], t2, b2, ("recent", ve)
+    return t1, b1, t2[:-1], _push(size, b2, ve)[0], ("frequent", ve)
+
+
+def mon_c09(case):
+    """AdaptiveCache: the ARC policy (promotion, ghosting, adaptation of p, victim choice) on the real lists"""
+    if case["kind"] != 3:
+        return None
+    size = case["cfg"][0]
+    p, t1, b1, t2, b2 = 0, [], [], [], []
+    for step, (op, out, cb, acct, snap) in enumerate(case["lines"], 1):
+        if not op or op[0] in (98, 99) or out == [-1000]:
+            continue
+        ps = parse_snap(3, snap)
+        if ps is None:
+            return step, "unreadable snapshot"
+        hdr, (n1, nb1, n2, nb2), _, _ = ps
+        np_ = hdr[1]
+        if not (0 <= np_ <= size):
+            return step, f"p = {np_} outside [0, {size}]"
+        c = op[0]
+        want = None
+        if c in (0, 1, 2):
+            k = op[1]
+            d1, d2, g1, g2 = dict(t1), dict(t2), dict(b1), dict(b2)
+            isput = c == 0
+            if k in d1:
+                old = d1[k]
+                v1 = op[2] if isput else (op[3] if (c == 2 and op[2] != 0) else old)
+                want = (p, [e for e in t1 if e[0] != k], b1, [(k, v1)] + t2, b2, [1, old],
+                        "a second access moves a recent entry to the frequent list")
+            elif k in d2:
+                old = d2[k]
+                v1 = op[2] if isput else (op[3] if (c == 2 and op[2] != 0) else old)
+                want = (p, t1, b1, [(k, v1)] + [e for e in t2 if e[0] != k], b2, [1, old],
+                        "an access to a frequent entry refreshes it")
+            elif not isput:
+                want = (p, t1, b1, t2, b2, [0], "a miss changes nothing")
+            elif k in g1:
+                old, v = g1[k], op[2]
+                delta = max(1, len(b2) // len(b1))
+                p1 = min(size, p + delta)
+                x1, xb1, x2, xb2 = t1, [e for e in b1 if e[0] != k], t2, b2
+                why = f"hit on the recent ghost list: p {p} -> {p1} (raise by max(1, {len(b2)}/{len(b1)}) capped at {size})"
+                if len(t1) + len(t2) >= size:
+                    x1, xb1, x2, xb2, vi = _arc_replace(size, p1, x1, xb1, x2, xb2, False)
+                    why += f", victim {vi}"
+                want = (p1, x1, xb1, [(k, v)] + x2, xb2, [1, old], why)
+            elif k in g2:
+                old, v = g2[k], op[2]
+                delta = max(1, len(b1) // len(b2))
+                p1 = max(0, p - delta)
+                x1, xb1, x2, xb2 = t1, b1, t2, [e for e in b2 if e[0] != k]
+                why = f"hit on the frequent ghost list: p {p} -> {p1} (lower by max(1, {len(b1)}/{len(b2)}) floored at 0)"
+                if len(t1) + len(t2) >= size:
+                    x1, xb1, x2, xb2, vi = _arc_replace(size, p1, x1, xb1, x2, xb2, True)
+                    why += f", victim {vi}"
+                want = (p1, x1, xb1, [(k, v)] + x2, xb2, [1, old], why)
+            else:
+                v = op[2]
+                x1, xb1, x2, xb2 = t1, b1, t2, b2
+                why = "a new key enters the recent list"
+                if len(t1) + len(t2) >= size:
+                    x1, xb1, x2, xb2, vi = _arc_replace(size, p, x1, xb1, x2, xb2, False)
+                    why += f"; the full cache makes room first, victim {vi}"
+                if len(b1) > size - p:
+                    xb1 = xb1[:-1]
+                if len(b2) > p:
+                    xb2 = xb2[:-1]
+                want = (p, [(k, v)] + x1, xb1, x2, xb2, [0], why)
+        if want is not None:
+            wp, w1, wb1, w2, wb2, wout, why = want
+            if (np_, n1, nb1, n2, nb2) != (wp, w1, wb1, w2, wb2) or out != wout:
+                return step, (f"{why}: expected p {wp} recent {w1} recent-ghosts {wb1} frequent {w2} frequent-ghosts {wb2} "
+                              f"result {wout}; got p {np_} recent {n1} recent-ghosts {nb1} frequent {n2} "
+                              f"frequent-ghosts {nb2} result {out}")
+        p, t1, b1, t2, b2 = np_, n1, nb1, n2, nb2
+    return None
+
+
+# ---------------------------------------------------------------------------------------------
+# W-TinyLFU: the estimator state as the snapshot carries it
+M64 = (1 << 64) - 1
+
+
+def parse_tiny(t):
+    """[w samples size_exp bmask set_locs bshift nwords words.. smask nseeds seeds.. nrows (len bytes..)*]"""
+    try:
+        w, samples, exp, bmask, locs, shift, nw = t[:7]
+        i = 7
+        words = list(t[i:i + nw]); i += nw
+        smask, ns = t[i], t[i + 1]; i += 2
+        seeds = list(t[i:i + ns]); i += ns
+        nr = t[i]; i += 1
+        rows = []
+        for _ in range(nr):
+            n = t[i]; i += 1
+            rows.append(list(t[i:i + n])); i += n
+        return dict(w=w, samples=samples, exp=exp, bmask=bmask, locs=locs, shift=shift, words=words,
+                    smask=smask, seeds=seeds, rows=rows)
+    except (IndexError, ValueError):
+        return None
+
+
+def t_pos(t, i, h):
+    if t["seeds"]:
+        return (h ^ t["seeds"][i]) & t["smask"]
+    return ((h + i * (h >> 32)) & M64) & t["smask"]
+
+
+def t_door_idx(t, h):
+    sh = t["shift"]
+    hh = h >> sh
+    l = ((h << sh) & M64) >> sh
+    return [((hh + i * l) & t["bmask"]) for i in range(t["locs"])]
+
+
+def t_contains(t, h):
+    return all((t["words"][ix >> 6] >> (ix % 64)) & 1 for ix in t_door_idx(t, h))
+
+
+def t_estimate(t, h):
+    m = 255
+    for i, row in enumerate(t["rows"]):
+        p = t_pos(t, i, h)
+        m = min(m, (row[p // 2] >> ((p & 1) * 4)) & 15)
+    return m + (1 if t_contains(t, h) else 0)
+
+
+def t_copy(t):
+    c = dict(t)
+    c["words"] = list(t["words"])
+    c["rows"] = [list(r) for r in t["rows"]]
+    return c
+
+
+def t_try_reset(t):
+    t = t_copy(t)
+    t["w"] += 1
+    if t["w"] >= t["samples"]:
+        t["rows"] = [[(b >> 1) & 0x77 for b in r] for r in t["rows"]]
+        t["words"] = [0] * len(t["words"])
+        t["w"] = 0
+    return t
+
+
+def t_increment(t, h):
+    t = t_copy(t)
+    if t_contains(t, h):
+        for i, row in enumerate(t["rows"]):
+            p = t_pos(t, i, h)
+            sh = (p & 1) * 4
+            if (row[p // 2] >> sh) & 15 < 15:
+                row[p // 2] += 1 << sh
+    else:
+        for ix in t_door_idx(t, h):
+            t["words"][ix >> 6] |= 1 << (ix % 64)
+    return t_try_reset(t)
+
+
+def key_hash(mode, k):
+    if mode == 0:
+        return k & M64
+    if mode == 1:
+        return (k * 11400714819323198485) & M64
+    return 0
+
+
+def mon_c10(case):
+    """W-TinyLFU: window -> admission filter -> main cache, with the verdicts recomputed from the real sketch"""
+    if case["kind"] != 4:
+        return None
+    cfg = case["cfg"]
+    wc, fc, pc, kh = cfg[0], cfg[1], cfg[2], cfg[4]
+    win, prob, prot, tiny = [], [], [], None
+    first = True
+    for step, (op, out, cb, acct, snap) in enumerate(case["lines"], 1):
+        if not op or op[0] in (98, 99) or out == [-1000]:
+            continue
+        ps = parse_snap(4, snap)
+        if ps is None:
+            return step, "unreadable snapshot"
+        hdr, (nwin, nprob, nprot), _, rest = ps
+        ntiny = parse_tiny(rest)
+        if ntiny is None:
+            return step, "unreadable estimator state"
+        c = op[0]
+        if tiny is None:
+            # estimator state before the first call: all zero with the geometry of the first snapshot
+            tiny = t_copy(ntiny)
+            tiny["w"] = 0
+            tiny["words"] = [0] * len(ntiny["words"])
+            tiny["rows"] = [[0] * len(r) for r in ntiny["rows"]]
+        want = None      # (win, prob, prot, out, why)
+        want_tiny = tiny
+        if c == 0:
+            k, v = op[1], op[2]
+            dw, dp, df = dict(win), dict(prob), dict(prot)
+            if k in dw:
+                rest_w = [e for e in win if e[0] != k]
+                if len(prot) >= fc:
+                    want = ([prot[-1]] + rest_w, prob, [(k, v)] + prot[:-1], [1, dw[k]],
+                            "a put on a window-resident key moves it into protected, demoting protected's LRU into the window")
+                else:
+                    want = (rest_w, prob, [(k, v)] + prot, [1, dw[k]],
+                            "a put on a window-resident key moves it into the protected segment")
+            elif k in dp or k in df:
+                pass   # a put on a key of the main cache: the segmented-LRU policy (C07) applies
+            elif len(win) < wc:
+                want = ([(k, v)] + win, prob, prot, [0], "a new key enters the window")
+            else:
+                ck, cv = win[-1]
+                nw = [(k, v)] + win[:-1]
+                if len(prob) + len(prot) < pc + fc:
+                    if len(prob) < pc:
+                        want = (nw, [(ck, cv)] + prob, prot, [0], "the main cache has room: the candidate is admitted freely")
+                    else:
+                        want = (nw, [(ck, cv)] + prob[:-1], prot, [2, prob[-1][0], prob[-1][1]],
+                                "the main cache has room: the candidate is admitted freely (probationary evicts its own LRU)")
+                else:
+                    vk, vv = prob[-1]
+                    ec, ev = t_estimate(tiny, key_hash(kh, ck)), t_estimate(tiny, key_hash(kh, vk))
+                    if ec < ev:
+                        want = (nw, prob, prot, [2, ck, cv],
+                                f"main cache full: candidate {ck} (estimate {ec}) is strictly below victim {vk} (estimate {ev}) and must be rejected")
+                    else:
+                        want = (nw, [(ck, cv)] + prob[:-1], prot, [2, vk, vv],
+                                f"main cache full: candidate {ck} (estimate {ec}) is not below victim {vk} (estimate {ev}) and must replace it")
+        elif c in (1, 2):
+            want_tiny = t_increment(t_try_reset(tiny), key_hash(kh, op[1]))
+        elif c == 7:
+            want_tiny = t_copy(tiny)
+            want_tiny["w"] = 0
+            want_tiny["words"] = [0] * len(tiny["words"])
+            want_tiny["rows"] = [[0] * len(r) for r in tiny["rows"]]
+            want = ([], [], [], [], "purge empties the cache")
+        if want is not None:
+            ww, wp, wf, wout, why = want
+            if (nwin, nprob, nprot) != (ww, wp, wf) or out != wout:
+                return step, (f"{why}: expected window {ww} probationary {wp} protected {wf} result {wout}; "
+                              f"got window {nwin} probationary {nprob} protected {nprot} result {out}")
+        for fld in ("w", "words", "rows"):
+            if ntiny[fld] != want_tiny[fld]:
+                what = {1: "get must record exactly one access (try_reset, then increment)",
+                        2: "get_mut must record exactly one access (try_reset, then increment)",
+                        7: "purge must clear the estimator"}.get(c, f"operation {op[:3]} must leave the estimator untouched")
+                return step, f"{what}: estimator field {fld} differs from the expected state"
+        win, prob, prot, tiny = nwin, nprob, nprot, ntiny
+    return None
